@@ -484,3 +484,314 @@ def error_rows_rendered(cx, qual, dict_param):
     fn.ob('UNION', 'the statistics loop skips error rows (their statistics stay empty)', len(skips) >= 1, skips[0] if skips else fn.ast,
           key='skip-errors')
     return fn
+
+
+# ---------------------------------------------------------------------------
+# C10: the per-row pipeline is the documented composition
+
+def _direct_child_of_try(fn, st, tr, allowed_ifs=()):
+    """st is a statement of the try body, possibly nested only inside the allowed conditionals."""
+    prev = st
+    for a in fn.ancestors(st):
+        if a is tr:
+            return any(prev is x for x in tr.body)
+        if isinstance(a, ast.If) and any(sym.norm(a.test) == sym.norm(t) for t in allowed_ifs) and not a.orelse:
+            prev = a
+            continue
+        if isinstance(a, ast.Try) and a is not tr and any(prev is x for x in a.body):
+            prev = a
+            continue
+        return False
+    return False
+
+
+def samples_pipeline(cx):
+    fn = Fn(cx, SAMPLES)
+    lp, rid, row, tr = row_loop(cx, fn)
+    items = [
+        ('instrument row looked up by the sample\'s Instrument ID', "IR = instruments_table.loc[%s['Instrument ID']]" % row),
+        ('scatter channels = forward and side scatter channel of the instrument',
+         "SC = [IR['Forward Scatter Channel'], IR['Side Scatter Channel']]"),
+        ('fluorescence channels = comma separated list of the instrument', "FL = IR['Fluorescence Channels'].split(',')"),
+        ('... trimmed', 'FL = [X.strip() for X in FL]'),
+        ('file path relative to the workbook', "FN = os.path.join(base_dir, %s['File Path'])" % row),
+        ('stage 1: load', 'S = FlowCal.io.FCSData(FN)'),
+        ('stage 2: scatter channels to RFI', 'S = FlowCal.transform.to_rfi(S, SC)'),
+        ('stage 4: drop the first 250 and last 100 events', 'G = FlowCal.gate.start_end(S, num_start=250, num_end=100)'),
+        ('stage 5: saturation gate only for integer data', "if G.data_type == 'I':"),
+        ('stage 5: remove saturated events in scatter and reported channels', 'G = FlowCal.gate.high_low(G, SC + RC)'),
+        ('stage 6: density gate on the scatter channels at the row\'s fraction',
+         "DGO = FlowCal.gate.density2d(data=G, channels=SC, gate_fraction=%s['Gate Fraction'], xscale='logicle', yscale='logicle', full_output=True)" % row),
+        ('stage 6: gated sample is the gate\'s output', 'G = DGO.gated_data'),
+        ('stage 7: the gated sample is the row\'s result', '%s[%s] = G' % ('samples', rid)),
+        ('reported channels start empty for each row', 'RC = []'),
+    ]
+    b = inventory(fn, 'PIPE', items, ['IR', 'SC', 'FL', 'X', 'FN', 'S', 'G', 'RC', 'DGO'], root=lp)
+    S, G = b.get('S'), b.get('G')
+    if not (S and G):
+        return fn
+    S, G = S[1], G[1]
+    # no other definition of the sample variables than the documented stages (+ the dispatch conversions)
+    allowed = {sym.stmt_nf(ast.parse(x).body[0]) for x in (
+        '%s = FlowCal.io.FCSData(%s)' % (S, b['FN'][1]), '%s = FlowCal.transform.to_rfi(%s, %s)' % (S, S, b['SC'][1]),
+        '%s = FlowCal.gate.start_end(%s, num_start=250, num_end=100)' % (G, S),
+        '%s = FlowCal.gate.high_low(%s, %s + %s)' % (G, G, b['SC'][1], b['RC'][1]),
+        '%s = %s.gated_data' % (G, b['DGO'][1]))}
+    extra = []
+    for st in fn.stmts(ast.Assign, lp):
+        for t in st.targets:
+            if isinstance(t, ast.Name) and t.id in (S, G):
+                nf = sym.stmt_nf(st)
+                if nf in allowed:
+                    continue
+                # dispatch conversions of a single fluorescence channel
+                v = st.value
+                if t.id == S and isinstance(v, ast.Call) and (
+                        (dotted(v.func) == 'FlowCal.transform.to_rfi' and len(v.args) == 2 and dotted(v.args[0]) == S) or
+                        (isinstance(v.func, ast.Subscript) and dotted(v.func.value) == 'mef_transform_fxns' and dotted(v.args[0]) == S)):
+                    continue
+                extra.append(st)
+    fn.ob('PIPE', 'the sample is only ever replaced by the output of a documented stage', not extra, extra[0] if extra else lp,
+          detail='' if not extra else '`%s`' % norm_stmt(extra[0]), key='no-extra-stage')
+    # every stage is executed on every normal path (only the documented conditionals around it)
+    for inst, pat, opts in [(i[0], i[1], None) for i in items if i[0].startswith('stage')]:
+        pass
+    stage_stmts = {}
+    for st in fn.stmts((ast.Assign,), lp):
+        nf = sym.stmt_nf(st)
+        for i, (inst, src) in enumerate(items):
+            if inst.startswith('stage') and sym.unify(sym.parse_pattern(src), nf, {k: v for k, v in b.items()}, set(b)) is not None:
+                stage_stmts[inst] = st
+    for inst, st in sorted(stage_stmts.items()):
+        cond = ["%s.data_type == 'I'" % G] if 'stage 5' in inst else []
+        ok = _direct_child_of_try(fn, st, tr, cond) if 'stage 7' not in inst else any(st is x for x in tr.orelse)
+        fn.ob('PIPE', '%s happens for every row (no shortcut around it)' % inst.split(':')[0], ok, st,
+              detail='' if ok else 'the stage is conditional', key='unconditional|' + inst.split(':')[0] + inst[-12:])
+    # order of the stages
+    order = ['stage 1: load', 'stage 2: scatter channels to RFI', 'stage 4: drop the first 250 and last 100 events',
+             'stage 5: remove saturated events in scatter and reported channels',
+             'stage 6: density gate on the scatter channels at the row\'s fraction', 'stage 6: gated sample is the gate\'s output']
+    lines = [stage_stmts[o].lineno for o in order if o in stage_stmts]
+    ok = len(lines) == len(order) and lines == sorted(lines)
+    fn.ob('PIPE', 'stages run in the documented order: load, scatter RFI, unit conversions, trim, de-saturate, density gate', ok, lp, key='order')
+    # the conversions (stage 3) happen between stage 2 and stage 4
+    ch = [s for s in fn.stmts(ast.If, tr) if 'lower' in ast.unparse(s.test)]
+    if ch and 'stage 2: scatter channels to RFI' in stage_stmts and order[2] in stage_stmts:
+        ok = stage_stmts['stage 2: scatter channels to RFI'].lineno < ch[0].lineno < stage_stmts[order[2]].lineno
+        fn.ob('PIPE', 'unit conversions happen after the scatter conversion and before trimming', ok, ch[0], key='order-conversions')
+    # conversions loop over the instrument's fluorescence channels, restricted to channels that have a units column
+    floop = [f for f in fn.stmts(ast.For, tr) if sym.norm(f.iter) == ('var', b['FL'][1])]
+    fn.ob('PIPE', 'conversions visit the instrument\'s fluorescence channels in order', len(floop) == 1, floop[0] if floop else tr, key='fl-loop')
+    return fn
+
+
+def beads_pipeline(cx):
+    fn = Fn(cx, BEADS)
+    lp, rid, row, tr = row_loop(cx, fn)
+    items = [
+        ('instrument row looked up by the beads\' Instrument ID', "IR = instruments_table.loc[%s['Instrument ID']]" % row),
+        ('scatter channels', "SC = [IR['Forward Scatter Channel'], IR['Side Scatter Channel']]"),
+        ('fluorescence channels', "FL = IR['Fluorescence Channels'].split(',')"),
+        ('... trimmed', 'FL = [X.strip() for X in FL]'),
+        ('file path relative to the workbook', "FN = os.path.join(base_dir, %s['File Path'])" % row),
+        ('stage 1: load', 'S = FlowCal.io.FCSData(FN)'),
+        ('stage 2: scatter and fluorescence channels to RFI', 'S = FlowCal.transform.to_rfi(S, SC + FL)'),
+        ('clustering channels from the row', "CC = %s['Clustering Channels'].split(',')" % row),
+        ('... trimmed', 'CC = [Y.strip() for Y in CC]'),
+        ('stage 3: drop the first 250 and last 100 events', 'G = FlowCal.gate.start_end(S, num_start=250, num_end=100)'),
+        ('stage 4: saturation gate only for integer data', "if G.data_type == 'I':"),
+        ('stage 4: remove saturated events in the scatter channels', 'G = FlowCal.gate.high_low(G, channels=SC)'),
+        ('stage 5: density gate on the scatter channels at the row\'s fraction',
+         "DGO = FlowCal.gate.density2d(data=G, channels=SC, gate_fraction=%s['Gate Fraction'], xscale='logicle', yscale='logicle', sigma=5.0, full_output=True)" % row),
+        ('stage 5: gated sample is the gate\'s output', 'G = DGO.gated_data'),
+        ('MEF values parsed per channel: integers, anything else unknown',
+         'MEF = [int(E) if E.strip().isdigit() else np.nan for E in MEF]'),
+        ('stage 6: calibration from the gated beads with the row\'s values, channels and clustering channels',
+         "MO = FlowCal.mef.get_transform_fxn(G, MV, mef_channels=MC, clustering_channels=CC, verbose=False, plot=plot, plot_filename=%s, plot_dir=os.path.join(base_dir, plot_dir) if plot_dir is not None else None, full_output=full_output, **get_transform_fxn_kwargs)" % rid),
+        ('the gated beads are the row\'s result', 'beads_samples[%s] = G' % rid),
+    ]
+    b = inventory(fn, 'PIPE', items, ['IR', 'SC', 'FL', 'X', 'Y', 'FN', 'S', 'G', 'CC', 'DGO', 'MEF', 'E', 'MO', 'MV', 'MC'], root=lp)
+    return fn
+
+
+STAT_COLUMNS = [('Mean', 'mean', False), ('Geom. Mean', 'gmean', True), ('Median', 'median', False), ('Mode', 'mode', False),
+                ('Std', 'std', False), ('CV', 'cv', False), ('Geom. Std', 'gstd', True), ('Geom. CV', 'gcv', True),
+                ('IQR', 'iqr', False), ('RCV', 'rcv', False)]
+
+
+def stats_table(cx):
+    fn = Fn(cx, 'excel_ui.add_samples_stats')
+    tbl, smp = fn.params[0], fn.params[1]
+    items = []
+    for col, f, geo in STAT_COLUMNS:
+        items.append(('column %s starts empty' % col, "%s[C + ' %s'] = np.nan" % (tbl, col)))
+        arg = 'SP' if geo else '%s[R]' % smp
+        items.append(('column %s is FlowCal.stats.%s of the %s' % (col, f, 'positive events of the gated sample' if geo else 'gated sample'),
+                      "%s.at[R, C + ' %s'] = FlowCal.stats.%s(%s, C)" % (tbl, col, f, arg)))
+    items += [
+        ('non-positive events are detected per channel', 'if np.any(%s[R][:, C] <= 0):' % smp),
+        ('positive-only sample: events strictly greater than 0 in the channel', 'SP = %s[R][%s[R][:, C] > 0]' % (smp, smp)),
+        ('no non-positive events: the whole gated sample', 'SP = %s[R]' % smp),
+        ('the note says that geometric statistics use positive events only', "%s.at[R, 'Analysis Notes'] = MSG" % tbl),
+        ('statistics are computed only where units are given', 'if pd.notnull(%s[H][R]):' % tbl),
+    ]
+    b = inventory(fn, 'TABLE', items, ['C', 'R', 'SP', 'MSG', 'H'])
+    # bijection: ten distinct functions of FlowCal.stats, ten distinct columns
+    calls = [c for c in fn.calls() if (dotted(c.func) or '').startswith('FlowCal.stats.')]
+    fns = sorted(dotted(c.func).split('.')[-1] for c in calls)
+    ok = fns == sorted(f for _, f, _ in STAT_COLUMNS)
+    fn.ob('TABLE', 'the ten statistics columns are a bijection with the ten library statistics', ok, fn.ast, detail=str(fns), key='bijection')
+    # headers <-> channels: zip of matching headers and their captured channel names
+    inventory(fn, 'TABLE', [
+        ('statistics headers are the units columns', 'SH = [HH for HH in HS if re_units.match(HH)]'),
+        ('channel names are captured from the same headers', 'SCH = [re_units.match(HH).group(1) for HH in SH]'),
+        ('header and channel are iterated together', 'for H, C in zip(SH, SCH):'),
+    ], ['SH', 'HH', 'HS', 'SCH', 'H', 'C'])
+    return fn
+
+
+def histograms_table(cx):
+    fn = Fn(cx, 'excel_ui.generate_histograms_table')
+    tbl, smp = fn.params[0], fn.params[1]
+    items = [
+        ('units of the row/channel', 'UNIT = %s[H][R]' % tbl),
+        ('linear scale iff the units are channel numbers', "if UNIT == 'Channel':"),
+        ('... linear', "SCALE = 'linear'"),
+        ('... otherwise logicle', "SCALE = 'logicle'"),
+        ('number of bins = min(resolution of the channel, max_bins)', 'NB = min(%s[R].resolution(C), max_bins)' % smp),
+        ('edges and centres come from the library\'s grid with twice the bins', 'BE = %s[R].hist_bins(C, 2 * NB, SCALE)' % smp),
+        ('edges are every other point', 'EDGES = BE[::2]'),
+        ('centres are the points in between', 'CENTERS = BE[1::2]'),
+        ('counts are the histogram of the gated events of the channel over those edges', 'HIST, _U = np.histogram(%s[R][:, C], bins=EDGES)' % smp),
+        ('counts row', "HT.loc[(R, C, 'Counts'), COLS[0:len(CENTERS)]] = HIST"),
+        ('centres row', "HT.loc[(R, C, 'Bin Centers ({})'.format(UNIT)), COLS[0:len(CENTERS)]] = CENTERS"),
+        ('rows without units are skipped', 'if pd.notnull(%s[H][R]):' % tbl),
+    ]
+    inventory(fn, 'TABLE', items, ['UNIT', 'H', 'R', 'C', 'SCALE', 'NB', 'BE', 'EDGES', 'CENTERS', 'HIST', '_U', 'HT', 'COLS'])
+    return fn
+
+
+# ---------------------------------------------------------------------------
+# C15: run(), read_table, write_workbook
+
+def run_sequence(cx):
+    fn = Fn(cx, 'excel_ui.run')
+    items = [
+        ('instruments sheet read with ID as index', "IT = read_table(input_path, sheetname='Instruments', index_col='ID')"),
+        ('beads sheet read with ID as index', "BT = read_table(input_path, sheetname='Beads', index_col='ID')"),
+        ('samples sheet read with ID as index', "ST = read_table(input_path, sheetname='Samples', index_col='ID')"),
+        ('beads processed with full output', "BS, MF, MO = process_beads_table(BT, IT, base_dir=ID, verbose=verbose, plot=plot, plot_dir='plot_beads', full_output=True)"),
+        ('beads statistics added to the beads table', 'add_beads_stats(BT, BS, MO)'),
+        ('samples processed with the beads\' calibrations and the extended beads table',
+         "SS = process_samples_table(ST, IT, mef_transform_fxns=MF, beads_table=BT, base_dir=ID, verbose=verbose, plot=plot, plot_dir='plot_samples')"),
+        ('sample statistics added to the samples table', 'add_samples_stats(ST, SS)'),
+        ('histograms from the samples table and results', 'HT = generate_histograms_table(ST, SS)'),
+        ('about table', "AT = generate_about_table({'Input file path': input_path})"),
+        ('sheet list starts empty', 'TL = []'),
+        ('sheet 1: Instruments', "TL.append(('Instruments', IT))"),
+        ('sheet 2: Beads', "TL.append(('Beads', BT))"),
+        ('sheet 3: Samples', "TL.append(('Samples', ST))"),
+        ('optional sheet: Histograms', "TL.append(('Histograms', HT))"),
+        ('last sheet: About Analysis', "TL.append(('About Analysis', AT))"),
+        ('workbook written', 'write_workbook(output_path, TL)'),
+        ('directory of the workbook', 'ID, IF = os.path.split(input_path)'),
+    ]
+    b = inventory(fn, 'SEQ', items, ['IT', 'BT', 'ST', 'BS', 'MF', 'MO', 'SS', 'HT', 'AT', 'TL', 'ID', 'IF'])
+    # order
+    def line(src_head):
+        for st in fn.stmts((ast.Assign, ast.Expr)):
+            if src_head in ast.unparse(st):
+                return st.lineno
+        return None
+    seq = ['read_table(input_path', 'process_beads_table(', 'add_beads_stats(', 'process_samples_table(', 'add_samples_stats(',
+           "generate_about_table(", "append(('Instruments'", "append(('Beads'", "append(('Samples'", "append(('Histograms'",
+           "append(('About Analysis'", 'write_workbook(']
+    lines = [line(s) for s in seq]
+    ok = None not in lines and lines == sorted(lines)
+    fn.ob('SEQ', 'reading, beads, beads statistics, samples, sample statistics, about, sheet list in order, writing', ok, fn.ast,
+          detail=str(lines), key='order')
+    # Histograms iff hist_sheet, both for generation and for the sheet
+    hs = [s for s in fn.stmts(ast.If) if sym.norm(s.test) == ('var', 'hist_sheet')]
+    ok = len(hs) == 2 and any('generate_histograms_table' in ast.unparse(s) for s in hs) and any("'Histograms'" in ast.unparse(s) for s in hs)
+    fn.ob('SEQ', 'the Histograms sheet is generated and written iff requested', ok, hs[0] if hs else fn.ast, key='hist-optional')
+    # all other sheet appends and the write are unconditional (apart from the early return without input file)
+    w = fn.calls('write_workbook')
+    if w:
+        st = fn.cfg.stmt_of(w[0])
+        ok = fn.parent.get(id(st)) is fn.ast
+        fn.ob('SEQ', 'the workbook is written on every path that processed the tables', ok, st, key='write-unconditional')
+    for name in ('Instruments', 'Beads', 'Samples', 'About Analysis'):
+        ap = [s for s in fn.stmts(ast.Expr) if "append(('%s'" % name in ast.unparse(s)]
+        ok = len(ap) == 1 and fn.parent.get(id(ap[0])) is fn.ast
+        fn.ob('SEQ', 'sheet %s is always written' % name, ok, ap[0] if ap else fn.ast, key='sheet-' + name)
+    # default output path next to the input
+    inventory(fn, 'SEQ', [
+        ('default output name', "OF = '{}_output.xlsx'.format(NOEXT)"),
+        ('default output path next to the input', 'output_path = os.path.join(ID, OF)'),
+        ('... only when no output path was given', 'if output_path is None:'),
+    ], ['OF', 'NOEXT', 'ID'])
+    return fn
+
+
+def read_write(cx):
+    fn = Fn(cx, 'excel_ui.read_table')
+    g = [x for x, p in guards(fn, exc=['TypeError']) if not p]
+    ok = len(g) == 1 and sym.norm(g[0].test) == sym.norm(
+        "sheetname is None or (hasattr(sheetname, '__iter__') and not isinstance(sheetname, six.string_types))")
+    fn.ob('GUARD', 'a missing sheet name or a list of sheets is refused', ok, g[0] if g else fn.ast, key='sheet-refusal')
+    drop = [s for s in fn.stmts(ast.Assign) if sym.norm(s.value) == sym.norm('table[pd.notnull(table.index)]')]
+    okd = len(drop) == 1 and any(isinstance(a, ast.If) and sym.norm(a.test) == sym.norm('index_col is not None') for a in fn.ancestors(drop[0]))
+    fn.ob('GUARD', 'rows without an identifier are dropped (when an index column is used)', okd, drop[0] if drop else fn.ast, key='drop-null')
+    dup = [x for x, p in guards(fn, exc=['ValueError']) if not p and sym.norm(x.test) == sym.norm('table.index.has_duplicates')]
+    okq = len(dup) == 1
+    fn.ob('GUARD', 'duplicated identifiers are refused', okq, dup[0] if dup else fn.ast, key='dup-refusal')
+    if okd and okq:
+        ok = drop[0].lineno < dup[0].lineno and not fn.cfg.reaches_avoiding(fn.cfg.node_of(dup[0]), fn.node(drop[0]), [])
+        fn.ob('GUARD', 'identifier-less rows are dropped before duplicates are looked for', ok, dup[0], key='drop-before-dup')
+    rets = fn.stmts(ast.Return)
+    ok = len(rets) == 1 and sym.norm(rets[0].value) == ('var', 'table')
+    fn.ob('GUARD', 'the table read is what is returned', ok, rets[0] if rets else fn.ast, key='return')
+    kw = [s for s in fn.stmts(ast.Assign) if isinstance(s.value, ast.Dict)]
+    ok = bool(kw) and sym.norm(kw[0].value) == sym.norm("{'io': file_in_mem, 'sheet_name': sheetname, 'index_col': index_col}")
+    fn.ob('GUARD', 'pandas reads the requested sheet with the requested index column', ok, kw[0] if kw else fn.ast, key='read-args')
+    fw = Fn(cx, 'excel_ui.write_workbook')
+    inventory(fw, 'SEQ', [
+        ('every (name, table) pair is written', 'for SN, DF in table_list:'),
+        ('identifiers become regular columns', 'DF = DF.reset_index()'),
+        ('each table goes to the sheet of its own name, without a second index', 'DF.to_excel(W, sheet_name=SN, index=False)'),
+        ('one writer for the requested file', "W = pd.ExcelWriter(filename, engine='openpyxl')"),
+        ('the workbook is closed (saved)', 'W.close()'),
+    ], ['SN', 'DF', 'W'])
+    cl = [c for c in fw.calls() if isinstance(c.func, ast.Attribute) and c.func.attr == 'close']
+    ok = bool(cl) and fw.parent.get(id(fw.cfg.stmt_of(cl[0]))) is fw.ast
+    fw.ob('SEQ', 'closing is unconditional', ok, cl[0] if cl else fw.ast, key='close-unconditional')
+    return fn, fw
+
+
+def column_agreement(cx):
+    """Columns written by add_beads_stats are the columns process_samples_table reads."""
+    w = Fn(cx, 'excel_ui.add_beads_stats')
+    r = Fn(cx, SAMPLES)
+
+    def templates(fn, needle):
+        out = set()
+        for n in fn.walk(into_nested=True):
+            if isinstance(n, ast.BinOp) and isinstance(n.op, ast.Add) and isinstance(n.right, ast.Constant) \
+                    and isinstance(n.right.value, str) and needle in n.right.value and isinstance(n.left, ast.Name):
+                out.add('{}' + n.right.value)
+            if isinstance(n, ast.Call) and isinstance(n.func, ast.Attribute) and n.func.attr == 'format' \
+                    and isinstance(n.func.value, ast.Constant) and isinstance(n.func.value.value, str) and needle in n.func.value.value:
+                out.add(n.func.value.value)
+        return out
+    for needle, what in ((' Amp. Type', 'amplification type'), (' Detector Volt.', 'detector voltage')):
+        tw, tr_ = templates(w, needle), templates(r, needle)
+        ok = len(tw) == 1 and tw == tr_
+        w.ob('TABLE', 'the %s column the beads statistics write is the column the samples processing reads' % what, ok, w.ast,
+             detail='' if ok else 'written %s, read %s' % (sorted(tw), sorted(tr_)), key='column|' + needle.strip())
+    inventory(w, 'TABLE', [
+        ('detector voltage column created per MEF channel', "T[C + ' Detector Volt.'] = np.nan"),
+        ('amplification type column created per MEF channel', "T[C + ' Amp. Type'] = ''"),
+        ('voltage of the gated beads in that channel', "T.at[R, C + ' Detector Volt.'] = BS[R].detector_voltage(C)"),
+        ('Log iff the channel has decades', 'if BS[R].amplification_type(C)[0]:'),
+        ('amplification type written', "T.at[R, C + ' Amp. Type'] = AT"),
+    ], ['T', 'C', 'R', 'BS', 'AT'], fixed={'T': w.params[0], 'BS': w.params[1]})
